@@ -809,6 +809,32 @@ def rule_R28(toks: List[Tok], err: str, rep: Report, fn: str) -> List[Tok]:
     return out
 
 
+def rule_R29(toks: List[Tok], ks: List[int], rep: Report, fn: str) -> List[Tok]:
+    """O.map(|P| E)  with O an Option (rustc checks that in the generated unit: the patterns are Some / None)
+       ->  (match O { Some(P) => Some(E), None => None })      -- the definition of Option::map.  Ordinals count `.map(` calls."""
+    sites = [i for i, t in enumerate(toks) if t.kind == "ident" and t.text == "map" and i > 0 and is_p(toks[i - 1], ".") and is_p(toks[i + 1], "(")]
+    for k in sorted(ks, reverse=True):
+        if k > len(sites):
+            raise Undecided(f"lost anchor: .map( #{k} in {fn}")
+        i = sites[k - 1]
+        close = match_close(toks, i + 1)
+        lo = chain_start(toks, i - 2)
+        parts = _closure_parts(toks, i + 1)
+        if parts is None or not re.fullmatch(r"\w+", parts[0]):
+            raise Undecided(f"R29: argument of .map( #{k} in {fn} is not a closure |name| expr")
+        pat, body = parts
+        if any(t.kind == "ident" and t.text in ("return", "break", "continue") for t in body) or any(is_p(t, "?") for t in body):
+            raise Undecided(f"R29: closure of .map( #{k} in {fn} contains control flow")
+        first = toks[lo]
+        recv = [Tok(first.kind, first.text, first.pos, "")] + toks[lo + 1:i - 1]
+        body = list(body)
+        body[0] = Tok(body[0].kind, body[0].text, body[0].pos, "")
+        toks = toks[:lo] + [syn("(match ", first.pos, first.ws)] + recv + [syn(" { Some(" + pat + ") => Some(", toks[i].pos, "")] + body + \
+            [syn("), None => None })", toks[close].pos, "")] + toks[close + 1:]
+        rep.rule("R29 Option .map(|p| E) -> match { Some(p) => Some(E), None => None }")
+    return toks
+
+
 def rule_R10(toks: List[Tok], which: List[str], rep: Report, fn: str) -> List[Tok]:
     """E?  ->  (match E { Ok(v__) => v__, Err(e__) => return Err(From::from(e__)) })
     Verus gives `?` no error-conversion semantics; the desugared form is the definition of `?` for Result."""
@@ -1720,7 +1746,10 @@ class UnitBuilder:
         b = a + 1
         while not is_p(body[b], "|"):
             b += 1
-        return body[b + 1:close]
+        end = close
+        while end - 1 > b + 1 and is_p(body[end - 1], ","):
+            end -= 1        # trailing comma of the argument list
+        return body[b + 1:end]
 
     def emit_wrap(self, ws: WrapSpec):
         s = self.source(ws.source)
@@ -1741,6 +1770,9 @@ class UnitBuilder:
                     toks = rule_R7(toks, k, self.rep, fnq)
             if ws.ensure_err:
                 toks = rule_R28(toks, ws.ensure_err, self.rep, fnq)
+            fmaps = [k for fname, k in ws.optmaps if fname == name]
+            if fmaps:
+                toks = rule_R29(toks, fmaps, self.rep, fnq)
             fscans = [k for fname, k in ws.scans if fname == name]
             if fscans:
                 toks = rule_R13(toks, [(k, k) for k in fscans], self.rep, fnq)
@@ -1757,7 +1789,13 @@ class UnitBuilder:
                 toks = rule_R2(toks, self.rep)
                 toks = rule_R3(toks, self.rep)
             for old, new in ws.substs:
-                toks = apply_subst(toks, old, new, self.rep, fnq)
+                if old.startswith("?"):
+                    try:
+                        toks = apply_subst(toks, old[1:], new, self.rep, fnq)
+                    except Undecided:
+                        pass
+                else:
+                    toks = apply_subst(toks, old, new, self.rep, fnq)
             if name in ws.frag_loops:
                 fake = FnSpec("fn", None, ws.name, ws.source)
                 fake.loops = ws.frag_loops[name]
